@@ -5,7 +5,7 @@ from typing import Dict, List, Optional, Set, Tuple
 
 from ..model import Repo, ClassInfo, FunctionInfo, AnalysisError, walk_no_nested, src, is_self_attr, call_name, dotted, parent, \
     ancestors, enclosing_stmt, const_str
-from ..core import Ob, Rule, Mutant, mutate_module, find_def, replace_node, remove_stmt
+from ..core import Ob, Rule, Mutant, mutate_module, find_def, replace_node, remove_stmt, inconclusive
 from ..dataflow import Defs
 from ..cfg import cfg_of, CFG, Node
 
@@ -342,6 +342,25 @@ def rule_float_conversion(repo: Repo) -> List[Ob]:
                 tests = controlling_tests(c, node_for(c, cv))
                 if any("is_Float" in src(t.ast) and reach is True for t, reach in tests):
                     guarded = True
+            if not ok:
+                # the conversion may live in a helper of the class / module that the values are routed through
+                helpers = []
+                for x in r:
+                    if x.startswith("call:"):
+                        nm = x[5:].split(".")[-1]
+                        h = (f.cls.find_method(nm) if f.cls else None) or next((g for g in repo.functions if g.module is f.module and g.cls is None and g.name == nm), None)
+                        if h is not None:
+                            helpers.append(h)
+                for h in helpers:
+                    hc = cfg_of(h.node)
+                    for cv in _calls(h.node, "float_to_rational"):
+                        ok = True
+                        tests = controlling_tests(hc, node_for(hc, cv))
+                        if any("is_Float" in src(t.ast) and reach is True for t, reach in tests) or any(isinstance(x2, ast.IfExp) and "is_Float" in src(x2.test) for x2 in ast.walk(h.node)):
+                            guarded = True
+            if ok and not guarded:
+                obs.append(inconclusive("E-float", f"{rp}::{qn}::{sk}", rp, f.node.lineno, qn, "float_to_rational is applied but the is_Float test was not recognised"))
+                continue
             ok = ok and guarded
             obs.append(Ob("E-float", f"{rp}::{qn}::{sk}", rp, f.node.lineno, qn, ok,
                           f"values stored via `{sk}` pass the is_Float -> float_to_rational conversion" if ok else
